@@ -371,8 +371,18 @@ func work(w *mon.W) {
 				}
 			}
 			ck.SetHTTPOnly(r.Bool())
-			ck.SetSecure(r.Bool())
-			ck.SetSameSite(protocol.CookieSameSite(r.Intn(5)))
+			// Secure, SameSite and Partitioned in either order: SetSameSite(None) and
+			// SetPartitioned(true) switch Secure on, a later SetSecure(false) switches it off again
+			// and the wire then says exactly that
+			attr := []func(){
+				func() { ck.SetSecure(r.Bool()) },
+				func() { ck.SetSameSite(protocol.CookieSameSite(r.Intn(5))) },
+				func() { ck.SetPartitioned(r.Chance(4)) },
+			}
+			r.Shuffle(len(attr), func(i, j int) { attr[i], attr[j] = attr[j], attr[i] })
+			for _, f := range attr {
+				f()
+			}
 			s := ck.String()
 			var d protocol.Cookie
 			var err error
@@ -384,9 +394,6 @@ func work(w *mon.W) {
 			w.Count("cookie_roundtrips", 1)
 			w.Count("roundtrips", 1)
 			ss := ck.SameSite()
-			if ss == protocol.CookieSameSiteNoneMode {
-				// SameSite=None forces Secure on the wire (documented)
-			}
 			bad := ""
 			switch {
 			case pv != nil:
@@ -407,8 +414,10 @@ func work(w *mon.W) {
 				bad = fmt.Sprintf("expires %v -> %v", exp, d.Expire())
 			case ck.HTTPOnly() != d.HTTPOnly():
 				bad = "HttpOnly flag"
-			case ck.Secure() != d.Secure() && ss != protocol.CookieSameSiteNoneMode:
-				bad = "Secure flag"
+			case ck.Secure() != d.Secure():
+				bad = fmt.Sprintf("Secure flag %v -> %v", ck.Secure(), d.Secure())
+			case ck.Partitioned() != d.Partitioned():
+				bad = fmt.Sprintf("Partitioned flag %v -> %v", ck.Partitioned(), d.Partitioned())
 			case ss != d.SameSite():
 				bad = fmt.Sprintf("SameSite %v -> %v", ss, d.SameSite())
 			}
